@@ -1,4 +1,5 @@
 import Nstd.Sync.Posix
+import Nstd.Generated.SyncSemPoll
 /-
   Sync area (property C11) — the five primitives as interleaving transition systems over the assumed
   POSIX layer, transcribed call by call from src/Mutex.cpp, Semaphore.cpp, Signal.cpp, Monitor.cpp,
@@ -64,10 +65,19 @@ end Mutex
 /-! ## Semaphore (Semaphore.cpp): sem_t -/
 namespace Sem
 
+/-- the constants of the ENOSYS polling loop of `wait(timeout)`, extracted from the CURRENT Semaphore.cpp by
+    tools/areas/sync.py (`translate_poll`, which also pins the shape of the two loops transcribed below) -/
+abbrev Poll.start : Nat := Nstd.Generated.SyncSemPoll.start
+abbrev Poll.stepMs : Nat := Nstd.Generated.SyncSemPoll.stepMs
+abbrev Poll.sleepUs : Nat := Nstd.Generated.SyncSemPoll.sleepUs
+
 inductive Op | signal | wait | twait (ms : Nat) | tryWait
 deriving DecidableEq, Repr
 
+/-- `pollTry d i`: in the ENOSYS fallback, about to call `sem_trywait` in the iteration with loop variable `i`;
+    `pollSleep d i wake`: inside the `usleep` of that iteration, which returns once the clock has reached `wake` -/
 inductive Pc | idle | post | wait | tryWait | twait (d : Deadline)
+  | pollTry (d : Deadline) (i : Nat) | pollSleep (d : Deadline) (i : Nat) (wake : Nat)
 deriving DecidableEq, Repr
 
 /-- a timed wait that returned false: its deadline record and the time of the return (ghost) -/
@@ -88,11 +98,14 @@ structure St where
   posts : Nat
   succ : Nat
   flog : List FalseRet
+  /-- how often `sem_timedwait` may still report ENOSYS (an arbitrary parameter; 0 on a system that implements it) -/
+  enosys : Nat
 
-def init (count now eintr : Nat) : St :=
-  ⟨count, fun _ => .idle, fun _ => none, now, eintr, count, 0, 0, []⟩
+def init (count now eintr : Nat) (enosys : Nat := 0) : St :=
+  ⟨count, fun _ => .idle, fun _ => none, now, eintr, count, 0, 0, [], enosys⟩
 
 def done (s : St) (t : Tid) (v : Val) : St := { s with pc := upd s.pc t .idle, ret := upd s.ret t (some v) }
+def goto (s : St) (t : Tid) (p : Pc) : St := { s with pc := upd s.pc t p }
 
 def step (s : St) (t : Tid) : Act Op → Option St
   | .tick q => some { s with now := s.now + q }
@@ -120,7 +133,7 @@ def step (s : St) (t : Tid) : Act Op → Option St
         if s.count > 0 then some (done { s with count := s.count - 1, succ := s.succ + 1 } t (.bool true))
         else some (done s t (.bool false))
       else none
-    | .twait d =>         -- for(;;) { if(sem_timedwait(data, &ts) == -1) { if(errno == EINTR) continue; … return false; } return true; }
+    | .twait d =>         -- for(;;) { if(sem_timedwait(data, &ts) == -1) { if(errno == EINTR) continue; if(errno == ENOSYS) goto no_sem_timedwait; return false; } return true; }
       if alt = 0 then
         if s.count > 0 then some (done { s with count := s.count - 1, succ := s.succ + 1 } t (.bool true)) else none
       else if alt = 1 then   -- EINTR: retry with the same absolute deadline
@@ -129,10 +142,25 @@ def step (s : St) (t : Tid) : Act Op → Option St
         if s.count = 0 ∧ (d.ts.valid = false ∨ d.expired s.now = true) then
           some (done { s with flog := ⟨t, d, s.now⟩ :: s.flog } t (.bool false))
         else none
+      else if alt = 3 then   -- ENOSYS: no_sem_timedwait: for(int i = start; i < timeout; i += stepMs) — the first loop test
+        if s.enosys > 0 then
+          if Poll.start < d.ms then some (goto { s with enosys := s.enosys - 1 } t (.pollTry d Poll.start))
+          else some (done { s with enosys := s.enosys - 1, flog := ⟨t, d, s.now⟩ :: s.flog } t (.bool false))
+        else none
+      else none
+    | .pollTry d i =>     -- if(sem_trywait(data) != -1) return true; usleep(sleepUs);
+      if alt = 0 then
+        if s.count > 0 then some (done { s with count := s.count - 1, succ := s.succ + 1 } t (.bool true))
+        else some (goto s t (.pollSleep d i (s.now + Poll.sleepUs * 1000)))
+      else none
+    | .pollSleep d i wake =>   -- usleep returns (ASSUMED: not before `wake`); i += stepMs; i < timeout ? next iteration : return false
+      if alt = 0 ∧ wake ≤ s.now then
+        if i + Poll.stepMs < d.ms then some (goto s t (.pollTry d (i + Poll.stepMs)))
+        else some (done { s with flog := ⟨t, d, s.now⟩ :: s.flog } t (.bool false))
       else none
 
 inductive Reach (count now eintr : Nat) : St → Prop
-  | init : Reach count now eintr (init count now eintr)
+  | init (enosys : Nat) : Reach count now eintr (init count now eintr enosys)
   | step {s s' t a} : Reach count now eintr s → step s t a = some s' → Reach count now eintr s'
 
 end Sem
